@@ -86,7 +86,7 @@ P_C06_NewEntry(e) ==
        /\ b.chain_present /\ b.chain_ok
 
 \* C14: what a command may touch
-ReadOnlyOps == {"verify", "verifysf", "verifydh", "verifypl", "diff", "info", "infosf", "hash"}
+ReadOnlyOps == {"verify", "verifysf", "verifydh", "verifypl", "diff", "info", "infosf", "hash", "xsdcheck"}
 DeltaOK(e, W, d) ==
   \/ d.p.area = "hist" /\ d.p.h \in W /\
        \/ d.k = "created" /\ d.p.rest = ""                         \* a new ascmhl folder
@@ -144,6 +144,20 @@ P_C07_Relations(e, pre, post) ==
                 (hn[x].f = hi[y].f) =>
                    /\ (hn[x].c = hi[y].c) <=> (CSig(sn, d, gn.croot, gn.ceff) = CSig(si, d, gi.croot, gi.ceff))
                    /\ (hn[x].s = hi[y].s) <=> (SSig(sn, d, gn.croot, gn.ceff) = SSig(si, d, gi.croot, gi.ceff))
+\* C08: the parent's directory entry of a nested root carries, per format, exactly the child's own root hash
+P_C08_ChildRootBytes(e, pre, post) ==
+  \A j \in DOMAIN e.post.hist :
+    LET b == e.post.hist[j] IN
+    (b.h \in Wrote(pre, post)) =>
+      LET g == b.gens[Len(b.gens)] IN
+      \A k \in DOMAIN g.refs :
+         LET cc == RawHist(e.post.hist, g.refs[k].h) IN
+         (cc # <<>> /\ g.refs[k].h \in Wrote(pre, post)) =>
+            LET cg == cc[1].gens[Len(cc[1].gens)]
+                ph == HsOf(g, Rel(b.h, g.refs[k].h))
+            IN (cg.root.has /\ e.op.op = "create") =>
+                 /\ Len(ph) = Len(cg.root.hs)
+                 /\ \A x \in DOMAIN ph : \E y \in DOMAIN cg.root.hs : cg.root.hs[y] = ph[x]
 P_C02_Paths(e) ==
   \A j \in DOMAIN e.post.hist : \A i \in DOMAIN e.post.hist[j].gens :
      LET g == e.post.hist[j].gens[i] IN
@@ -222,6 +236,7 @@ Verdict(e) ==
                P_C07_Printed |-> (e.op.op = "verifydh" /\ e.op.co /\ e.exit = 0) => (e.co.bad = <<>> /\ e.co.printed = e.co.good /\ e.co.printed >= e.co.ndirs),
                P_C02_Paths |-> P_C02_Paths(e),
                P_C08_RefBytes |-> P_C08_RefBytes(e),
+               P_C08_ChildRootBytes |-> (e.op.op = "create") => P_C08_ChildRootBytes(e, pre, post),
                P_C08_Order |-> (e.op.op \in {"create", "createsf"}) => P_C08_Order(e, pre, post)]
   IN IF IsCreate(o)
      THEN LET m == MRes(pre, dk, o)
@@ -254,7 +269,7 @@ Verdict(e) ==
               A_renames |-> HasRenames(pre, dk, o.R),
               P_C12_Excluded |-> P_C12_Excluded(pre, post, o, ob, ign),
               P_C12_Accumulate |-> P_C12_Accumulate(pre, post, o, ob),
-              A_unchanged |-> Len(GensOf(pre, o.R)) > 0 /\ Unchanged(dk, sld, o.R, ign),
+              A_unchanged |-> Len(GensOf(pre, o.R)) > 0 /\ Unchanged(pre, dk, sld, o.R, ign),
               A_ambig |-> AmbiguousRecorded(pre, dk, o.R),
               A_nested |-> Cardinality(Visible(pre, dk, o.R)) > 1,
               A_ign |-> ign # {}]
@@ -272,7 +287,7 @@ Verdict(e) ==
               P_C17_Altered |-> (o.op = "verify") => P_C17_Altered(pre, dk, o, ob, ign),
               A_renames |-> HasRenames(pre, dk, o.R),
               P_C03_Quiet |-> P_C03_Quiet(pre, dk, o, ob, ign),
-              A_unchanged |-> Len(GensOf(pre, o.R)) > 0 /\ Unchanged(dk, sld, o.R, ign),
+              A_unchanged |-> Len(GensOf(pre, o.R)) > 0 /\ Unchanged(pre, dk, sld, o.R, ign),
               A_ambig |-> AmbiguousRecorded(pre, dk, o.R),
               A_nested |-> Cardinality(Visible(pre, dk, o.R)) > 1,
               A_ign |-> ign # {}]
@@ -320,6 +335,8 @@ Verdict(e) ==
           IN base @@
              [kind |-> "infosf",
               P_C19_InfoSF |-> P_C19_InfoSF(pre, dk, o, ob2)]
+     ELSE IF o.op = "xsdcheck"
+     THEN base @@ [kind |-> "xsdcheck", P_C11_ToolAgrees |-> e.exit = 0]     \* the tool's own validator accepts what the tool wrote
      ELSE base @@ [kind |-> "other"]
 
 \* the ghost variable of C03 is carried by the trace specification itself, from the observed
@@ -331,7 +348,7 @@ Next == /\ l <= Len(TraceLog)
         /\ LET e == TraceLog[l]
                cur == IF e.i = 0 THEN <<>> ELSE sealed
            IN sealed' = IF e.op.op \in {"create", "createsf"}
-                        THEN SealedNext(cur, DiskOf(e.pre.disk), Wrote(HistOf(e.pre.hist), HistOf(e.post.hist)), OpOf(e.op), e.exit)
+                        THEN SealedNext(cur, DiskOf(e.pre.disk), Wrote(HistOf(e.pre.hist), HistOf(e.post.hist)), OpOf(e.op), e.exit, HistOf(e.post.hist))
                         ELSE cur
 Spec == Init /\ [][Next]_<<l, sealed>>
 =============================================================================
